@@ -11,6 +11,9 @@ pub enum Mode {
     Short(usize),
     /// like Short, and returns ErrorKind::Interrupted now and then (write_all must retry)
     Interrupting(usize),
+    /// writes of up to 64 bytes are atomic (a directory slot is never torn); larger writes accept
+    /// between 64 and k bytes — how pipes, sockets and nearly full disks behave
+    ShortLarge(usize),
 }
 
 #[derive(Clone, Debug, PartialEq, Eq)]
@@ -33,6 +36,8 @@ pub enum Fault {
     Panic,
 }
 
+pub const SNAP_HEAD: usize = 16 * 1024;
+
 pub struct DestState {
     pub data: Vec<u8>,
     pub pos: u64,
@@ -44,7 +49,10 @@ pub struct DestState {
     pub log: Vec<Call>,
     /// content snapshot after every completed call (only when `record_snapshots`)
     pub record_snapshots: bool,
-    pub snapshots: Vec<Vec<u8>>,
+    /// (length, first SNAP_HEAD bytes) after every completed call: the writers only ever append or
+    /// patch the directory near the start, so a snapshot is the final content cut at `length`
+    /// with this head put back
+    pub snapshots: Vec<(usize, Vec<u8>)>,
     pub failed: bool,
 }
 
@@ -89,7 +97,8 @@ impl DestState {
     }
     fn snap(&mut self) {
         if self.record_snapshots {
-            self.snapshots.push(self.data.clone());
+            let n = std::cmp::min(self.data.len(), SNAP_HEAD);
+            self.snapshots.push((self.data.len(), self.data[..n].to_vec()));
         }
     }
     fn due(&mut self) -> Fault {
@@ -136,6 +145,13 @@ impl Write for DestState {
             Mode::Plain => buf.len(),
             Mode::Short(k) | Mode::Interrupting(k) => {
                 std::cmp::min(buf.len(), 1 + self.rng.usize_below(k))
+            }
+            Mode::ShortLarge(k) => {
+                if buf.len() <= 64 {
+                    buf.len()
+                } else {
+                    std::cmp::min(buf.len(), 64 + self.rng.usize_below(std::cmp::max(k, 65) - 64))
+                }
             }
         };
         let at = self.pos;
@@ -206,8 +222,21 @@ impl Dest {
     pub fn calls(&self) -> usize {
         self.0.borrow().calls
     }
-    pub fn snapshots(&self) -> Vec<Vec<u8>> {
+    pub fn snapshots(&self) -> Vec<(usize, Vec<u8>)> {
         self.0.borrow().snapshots.clone()
+    }
+    /// Calls `f(j, content)` for every snapshot, reconstructing each in one scratch buffer.
+    pub fn for_each_snapshot(&self, mut f: impl FnMut(usize, &[u8]) -> bool) {
+        let st = self.0.borrow();
+        let mut cur = st.data.clone();
+        for (j, (len, head)) in st.snapshots.iter().enumerate() {
+            let len = std::cmp::min(*len, cur.len());
+            let n = std::cmp::min(head.len(), len);
+            cur[..n].copy_from_slice(&head[..n]);
+            if !f(j, &cur[..len]) {
+                break;
+            }
+        }
     }
     pub fn log(&self) -> Vec<Call> {
         self.0.borrow().log.clone()
